@@ -50,7 +50,7 @@ def gen(rng, tier):
     else:
         keys = ["gene_id", "transcript_id", "exon_number", "tag", "note"]
         vals = PLAIN_VALS
-    n = rng.choice([1, 2, 3, 3, 5, 8, 11, 14])
+    n = rng.choice([1, 2, 3, 3, 5, 8, 11, 14]) if rng.random() > 0.03 else rng.choice([120, 400, 1050])
     keep_order = rng.random() < 0.7
     sortv = rng.random() < 0.2
     extra_cols = rng.choice([0, 0, 0, 1, 2])
